@@ -1374,6 +1374,28 @@ def entry_key(repo, fi: FuncInfo, expr, depth=0) -> Optional[Tuple[str, str]]:
                 if all(p_ and p_.startswith("self.") for p_ in ps):
                     base = ap(expr.value)
                     pair = (base + ps[0][4:], base + ps[1][4:])
+    elif isinstance(expr, ast.Call):
+        # a one-expression helper (same-module function or method of the own class) that builds the key:
+        # its result with the arguments substituted for the parameters
+        callee = None
+        if isinstance(expr.func, ast.Name):
+            cands = [g for g in repo.funcs.get(expr.func.id, []) if g.module is fi.module and g.cls is None
+                     and g.parent_fn is None]
+            callee = cands[0] if len(cands) == 1 else None
+        else:
+            callee = resolve_method_call(repo, fi, expr)
+        if callee is not None and callee != fi:
+            rets = [r for r in walk(callee.node) if isinstance(r, ast.Return) and r.value is not None]
+            params = method_params(callee) if not isinstance(expr.func, ast.Name) else [a.arg for a in callee.node.args.args]
+            argmap = {params[i]: ap(a) for i, a in enumerate(expr.args) if i < len(params)}
+            argmap.update({k.arg: ap(k.value) for k in expr.keywords if k.arg})
+            if len(rets) == 1 and all(argmap.values()):
+                inner = entry_key(repo, callee, rets[0].value, depth + 1)
+                if inner is not None:
+                    def sub(p_):
+                        head, sep, rest = p_.partition(".")
+                        return argmap[head] + sep + rest if head in argmap else p_
+                    pair = (sub(inner[0]), sub(inner[1]))
     if pair is None:
         return None
     out = []
